@@ -29,6 +29,7 @@ class SymRng(_random.Random):
         """random_mode='grid': random() / gauss() / expovariate() return a solver-chosen member of a small
         fixed grid as a plain float (for code that pushes the draw through math.log / float())"""
         super().__init__(0)
+        SymRng.instances.append(self)
         self.random_mode = random_mode
         self.free_draws = free_draws
         self._tail_rng = None
@@ -42,6 +43,7 @@ class SymRng(_random.Random):
 
     MAX_DRAWS = 300
     TAIL_STREAMS = 4
+    instances = []  # every generator created since a harness last reset this list (for scripted replays)
 
     def _tail(self):
         """free_draws=K: the first K draws of a path are individually solver-chosen; every later draw comes from one of
@@ -132,7 +134,7 @@ class SymRng(_random.Random):
             return self._rec("uniform", t.uniform(a, b))
         if self.uniform_mode == "grid":
             grid = [a, (a + b) / 2, b]
-            return grid[self._rec("uniform", symx.choose(self.tag + "_ug", 3))]
+            return self._rec("uniform", grid[symx.choose(self.tag + "_ug", 3)])
         return self._rec("uniform", symx.sym_real(self.tag + "_un", a, b))
 
     def gauss(self, mu=0.0, sigma=1.0):
@@ -248,6 +250,7 @@ class SymGumbel:
     real in that range."""
 
     instances = []
+    log = []  # every draw of every instance, in call order (ScriptedGumbel replays this sequence)
 
     def __init__(self, seed=None):
         self.draws = []
@@ -257,6 +260,7 @@ class SymGumbel:
         # -log(-log(u)) for a double u in [2^-53, 1-2^-53]
         v = symx.sym_real("gumbel", -GUMBEL_LO, GUMBEL_HI)
         self.draws.append(v)
+        SymGumbel.log.append(v)
         return v
 
 
@@ -268,6 +272,8 @@ class ScriptedGumbel:
         pass
 
     def __call__(self):
+        if ScriptedGumbel.pos >= len(ScriptedGumbel.script):
+            raise RuntimeError("scripted gumbel exhausted")
         v = ScriptedGumbel.script[ScriptedGumbel.pos]
         ScriptedGumbel.pos += 1
         return float(v)
